@@ -701,6 +701,7 @@ type c09Attempt struct {
 	chunkReq int
 	preSize  map[int]int64
 	listReq  map[int]int        // chunksums requests per blob
+	dirty    map[int][][2]int64 // ranges for which the registry delivered wrong bytes (corrupting fault, or a lying list's content)
 	rangeReq map[int][][2]int64 // ranges requested per blob
 }
 
@@ -733,7 +734,7 @@ type c09World struct {
 	fetched      map[int][][2]int64
 	partial      map[int]bool
 	deletedAfter map[int]bool
-	overwritten  map[int]bool // a failed attempt served an overlapping chunk list for the blob and a chunk of it arrived corrupt
+	overwritten  map[int]bool // in a failed attempt wrong bytes were delivered for a range that touches one stored and marked before
 
 	violated     bool
 	inconclusive bool
@@ -1240,11 +1241,23 @@ func (w *c09World) serveBlob(a *c09Attempt, rw http.ResponseWriter, r *http.Requ
 		rw.Write(data[len(data)/2:])
 	default:
 		full(data)
-		if len(data) == int(e-s+1) {
-			a.mu.Lock()
-			a.okRanges[b] = append(a.okRanges[b], [2]int64{s, e})
-			a.mu.Unlock()
+		lie := false
+		for _, l := range p.Lines {
+			lie = lie || (l.Lie && l.S == s && l.E == e)
 		}
+		a.mu.Lock()
+		switch {
+		case lie:
+			a.dirty[b] = append(a.dirty[b], [2]int64{s, e})
+		case len(data) == int(e-s+1):
+			a.okRanges[b] = append(a.okRanges[b], [2]int64{s, e})
+		}
+		a.mu.Unlock()
+	}
+	if f == "rotate" || f == "corrupt-first" || f == "corrupt-last" {
+		a.mu.Lock()
+		a.dirty[b] = append(a.dirty[b], [2]int64{s, e})
+		a.mu.Unlock()
 	}
 }
 
@@ -1330,7 +1343,7 @@ func (w *c09World) pullOnce(parent context.Context, si int, auto bool) (a *c09At
 	defer cancel()
 	w.mu.Lock()
 	w.attempts++
-	a = &c09Attempt{n: w.attempts, si: si, st: st, ver: st.Version, cancel: cancel, auto: auto, okRanges: map[int][][2]int64{}, preSize: map[int]int64{}, listReq: map[int]int{}, rangeReq: map[int][][2]int64{}}
+	a = &c09Attempt{n: w.attempts, si: si, st: st, ver: st.Version, cancel: cancel, auto: auto, okRanges: map[int][][2]int64{}, preSize: map[int]int64{}, listReq: map[int]int{}, rangeReq: map[int][][2]int64{}, dirty: map[int][][2]int64{}}
 	if st.Order != "free" {
 		a.gate = &c09Gate{last: time.Now()}
 	}
@@ -1496,9 +1509,7 @@ func (w *c09World) cause(a *c09Attempt, b int) string {
 	case asked == "ranges-skipped" && w.deletedAfter[b]:
 		return "after-layer-blob-deleted:" + asked
 	case asked == "ranges-skipped" && w.overwritten[b]:
-		// the first pieces of a corrupt chunk are written before its digest check fails; under an
-		// overlapping list they land on a chunk that is already stored, verified and marked
-		return "retry-after-corrupt-chunk-under-overlapping-list:" + asked
+		return "retry-after-marked-chunk-overwritten:" + asked
 	case w.c.chunked(b) && p.broken() && lists > 0:
 		return "chunk-list-" + p.Kind
 	case w.partial[b]:
@@ -1594,16 +1605,19 @@ func (w *c09World) judge(a *c09Attempt, err error) {
 			if fi, serr := os.Stat(w.cache.GetFile(c.Blobs[b].dig)); serr == nil && fi.Size() > 0 && w.checkBlob(b) != "" {
 				w.partial[b] = true
 			}
-			if k := c.plan(a.st, b).Kind; c.chunked(b) && (k == "overlap" || k == "gap+overlap") {
-				a.mu.Lock()
-				served := a.listReq[b] > 0
-				for _, f := range a.fired {
-					if served && strings.HasPrefix(f, fmt.Sprintf("chunk:%d:", b)) && (strings.HasSuffix(f, "=rotate") || strings.HasSuffix(f, "=corrupt-first") || strings.HasSuffix(f, "=corrupt-last")) {
+			// wrong bytes were delivered for a range that touches a range stored (and therefore marked)
+			// before, under other boundaries or under another digest: whatever part of them was written
+			// (the pieces of a corrupt chunk before its digest check fails; all of a lying chunk) now sits
+			// under a marker that says "fetched and verified"
+			a.mu.Lock()
+			for _, d := range a.dirty[b] {
+				for _, q := range append(append([][2]int64(nil), w.fetched[b]...), a.okRanges[b]...) {
+					if d[0] <= q[1] && q[0] <= d[1] {
 						w.overwritten[b] = true
 					}
 				}
-				a.mu.Unlock()
 			}
+			a.mu.Unlock()
 		}
 	}
 	// "linked only after": observations taken while the attempt ran
